@@ -40,6 +40,85 @@ fn probes_for(pairs: &[(Canon, Canon)]) -> Vec<String> {
     p
 }
 
+pub const BIG_FAMILIES: [&str; 4] = ["server-node-NNNNNN (same length, same first 12 bytes)", "kN (variable length)", "NNNNNN-suffix (same length, differing first bytes)", "prefix8 + N x 'x' (same first 8 bytes, differing lengths)"];
+pub fn big_key(fam: usize, i: usize) -> String {
+    match fam {
+        0 => format!("server-node-{i:06}"),
+        1 => format!("k{i}"),
+        2 => format!("{i:06}-suffix"),
+        _ => format!("prefix8_{}", "x".repeat(i % 900)) + &format!("{}", i / 900),
+    }
+}
+fn big_text(fam: usize, n: usize) -> String {
+    let mut s = String::new();
+    for i in 0..n {
+        s.push_str(&big_key(fam, i));
+        s.push_str(": ");
+        s.push_str(&i.to_string());
+        s.push('\n');
+    }
+    s
+}
+pub fn eval_big(fam: usize, n: usize, absent: usize, acc: &mut Acc) {
+    acc.evals += 1;
+    let text = big_text(fam, n);
+    match catch_unwind(AssertUnwindSafe(|| Yaml::load_from_str(&text))) {
+        Ok(Ok(d)) if d.len() == 1 => l_yaml::check_big(&d[0], fam, n, absent, "Yaml", acc),
+        _ => acc.machinery_errors.push(format!("big mapping family {fam} does not load as Yaml")),
+    }
+    if let Ok(Ok(d)) = catch_unwind(AssertUnwindSafe(|| YamlOwned::load_from_str(&text))) {
+        l_owned::check_big(&d[0], fam, n, absent, "Owned", acc);
+    }
+    if let Ok(Ok(d)) = catch_unwind(AssertUnwindSafe(|| MarkedYaml::load_from_str(&text))) {
+        l_marked::check_big(&d[0], fam, n, absent, "Marked", acc);
+    }
+    if let Ok(Ok(d)) = catch_unwind(AssertUnwindSafe(|| MarkedYamlOwned::load_from_str(&text))) {
+        l_marked_owned::check_big(&d[0], fam, n, absent, "MarkedOwned", acc);
+    }
+    if acc.class(h64(&("big", fam, n))) {
+        acc.sample(json!({"big_mapping_family": BIG_FAMILIES[fam], "keys": n}));
+    }
+}
+/// Documents whose nodes stay unresolved (`early_parse(false)`): tagged Representation keys that
+/// spell the same tag through different handle/suffix splits, styles, duplicates.
+pub const DEFERRED_DOCS: [&str; 10] = [
+    "{!!str a: 1, !<tag:yaml.org,2002:str> a: 2}\n",
+    "%TAG !e! tag:yaml.org,2002:\n---\n{!e!str a: 1, !!str a: 2, !<tag:yaml.org,2002:str> a: 3}\n",
+    "%TAG !e! !f\n---\n[!e!oo a, !foo a, !<!foo> a]\n",
+    "{!x a: 1, !<!x> a: 2, ! a: 3, a: 4, 'a': 5, \"a\": 6}\n",
+    "? !!int 1\n: a\n? !!str 1\n: b\n? 1\n: c\n? '1'\n: d\n",
+    "[!!str a, !!str a, !<tag:yaml.org,2002:str> a, !!str 'a', a]\n",
+    "{? [!!str a] : 1, ? [!<tag:yaml.org,2002:str> a] : 2}\n",
+    "{!!map {a: b}: 1, !!map {a: b}: 2, {a: b}: 3}\n",
+    "%TAG !e! tag:e,\n---\n{!e!a%21 x: 1, !<tag:e,a!> x: 2}\n",
+    "{!!null ~: 1, ~: 2, !!null null: 3}\n",
+];
+pub fn eval_deferred(idx: usize, acc: &mut Acc) {
+    acc.evals += 1;
+    let s = DEFERRED_DOCS[idx];
+    let mut loaded = 0;
+    if let Some(d) = l_yaml::load_deferred(s) {
+        loaded += 1;
+        l_yaml::run(&d, s, "Yaml(deferred)", acc);
+    }
+    if let Some(d) = l_owned::load_deferred(s) {
+        loaded += 1;
+        l_owned::run(&d, s, "Owned(deferred)", acc);
+    }
+    if let Some(d) = l_marked::load_deferred(s) {
+        loaded += 1;
+        l_marked::run(&d, s, "Marked(deferred)", acc);
+    }
+    if let Some(d) = l_marked_owned::load_deferred(s) {
+        loaded += 1;
+        l_marked_owned::run(&d, s, "MarkedOwned(deferred)", acc);
+    }
+    if loaded != 4 {
+        acc.machinery_errors.push(format!("deferred document #{idx} loads for {loaded} of 4 node types"));
+    }
+    acc.class(h64(&("deferred", idx)));
+}
+
 macro_rules! lookups {
     ($m:ident, $ty:ty, $canon:path, $strnode:expr, $intnode:expr, ($($data:tt)*)) => {
         mod $m {
@@ -60,13 +139,15 @@ macro_rules! lookups {
                             let g4 = cl$($data)*.as_mapping_get_mut(&p).map(|x| $canon(&*x));
                             let needle: $ty = $strnode(p.clone());
                             let g5 = n$($data)*.as_mapping().and_then(|m| m.get(&needle)).map($canon);
+                            // mutable indexing (IndexMut<&str>) panics / finds like the shared one
+                            let g6 = catch_unwind(AssertUnwindSafe(|| { let mut c2 = n.clone(); let r: &mut _ = &mut c2$($data)*[p.as_str()]; $canon(&*r) })).ok();
                             // the map's own hasher must agree with itself for equal keys
-                            if g1 != refv || g2 != refv.is_some() || g3 != refv || g4 != refv || g5 != refv {
-                                let which = [("as_mapping_get", g1 == refv), ("contains_mapping_key", g2 == refv.is_some()), ("index", g3 == refv), ("as_mapping_get_mut", g4 == refv), ("explicit-node-get", g5 == refv)].iter().filter(|x| !x.1).map(|x| x.0).collect::<Vec<_>>().join("+");
+                            if g1 != refv || g2 != refv.is_some() || g3 != refv || g4 != refv || g5 != refv || g6 != refv {
+                                let which = [("as_mapping_get", g1 == refv), ("contains_mapping_key", g2 == refv.is_some()), ("index", g3 == refv), ("as_mapping_get_mut", g4 == refv), ("explicit-node-get", g5 == refv), ("index_mut", g6 == refv)].iter().filter(|x| !x.1).map(|x| x.0).collect::<Vec<_>>().join("+");
                                 let mut case = str_case(s);
                                 case["probe"] = json!(p);
                                 case["node_type"] = json!(nt);
-                                acc.violation(Violation { key: format!("lookup-disagrees nt={nt} which={which} ref={}", if refv.is_some() { "present" } else { "absent" }), expected: format!("all five lookups = reference scan {refv:?}"), observed: format!("get={g1:?} contains={g2} index={g3:?} get_mut={g4:?} explicit={g5:?}"), case, size: s.len() });
+                                acc.violation(Violation { key: format!("lookup-disagrees nt={nt} which={which} ref={}", if refv.is_some() { "present" } else { "absent" }), expected: format!("all five lookups = reference scan {refv:?}"), observed: format!("get={g1:?} contains={g2} index={g3:?} get_mut={g4:?} explicit={g5:?} index_mut={g6:?}"), case, size: s.len() });
                             }
                         }
                         // integer indexing of mappings
@@ -84,11 +165,12 @@ macro_rules! lookups {
                             let refv: Option<Canon> = i64::try_from(i).ok().and_then(|ii| pairs.iter().find(|(k, _)| *k == Canon::Int(ii)).map(|(_, v)| v.clone()));
                             let g1 = catch_unwind(AssertUnwindSafe(|| $canon(&n$($data)*[i]))).ok();
                             let g2 = i64::try_from(i).ok().and_then(|ii| { let needle: $ty = $intnode(ii); n$($data)*.as_mapping().and_then(|m| m.get(&needle)).map($canon) });
-                            if g1 != refv || g2 != refv {
+                            let g3 = catch_unwind(AssertUnwindSafe(|| { let mut c2 = n.clone(); let r: &mut _ = &mut c2$($data)*[i]; $canon(&*r) })).ok();
+                            if g1 != refv || g2 != refv || g3 != refv {
                                 let mut case = str_case(s);
                                 case["index"] = json!(i.to_string());
                                 case["node_type"] = json!(nt);
-                                acc.violation(Violation { key: format!("int-index-mapping nt={nt}"), expected: format!("{refv:?}"), observed: format!("index={g1:?} get={g2:?}"), case, size: s.len() });
+                                acc.violation(Violation { key: format!("int-index-mapping nt={nt}"), expected: format!("{refv:?}"), observed: format!("index={g1:?} get={g2:?} index_mut={g3:?}"), case, size: s.len() });
                             }
                         }
                     }
@@ -97,11 +179,13 @@ macro_rules! lookups {
                             let refv = items.get(i).cloned();
                             let g1 = catch_unwind(AssertUnwindSafe(|| $canon(&n$($data)*[i]))).ok();
                             let g2 = n$($data)*.as_sequence_get(i).map($canon);
-                            if g1 != refv || g2 != refv {
+                            let g3 = catch_unwind(AssertUnwindSafe(|| { let mut c2 = n.clone(); let r: &mut _ = &mut c2$($data)*[i]; $canon(&*r) })).ok();
+                            let g4 = { let mut c2 = n.clone(); let r = c2$($data)*.as_sequence_get_mut(i).map(|x| $canon(&*x)); r };
+                            if g1 != refv || g2 != refv || g3 != refv || g4 != refv {
                                 let mut case = str_case(s);
                                 case["index"] = json!(i.to_string());
                                 case["node_type"] = json!(nt);
-                                acc.violation(Violation { key: format!("int-index-sequence nt={nt}"), expected: format!("{refv:?}"), observed: format!("index={g1:?} as_sequence_get={g2:?}"), case, size: s.len() });
+                                acc.violation(Violation { key: format!("int-index-sequence nt={nt}"), expected: format!("{refv:?}"), observed: format!("index={g1:?} as_sequence_get={g2:?} index_mut={g3:?} as_sequence_get_mut={g4:?}"), case, size: s.len() });
                             }
                         }
                     }
@@ -111,6 +195,38 @@ macro_rules! lookups {
                             acc.violation(Violation { key: format!("lookup-on-non-mapping nt={nt}"), expected: "absent".into(), observed: "present".into(), case: str_case(s), size: s.len() });
                         }
                     }
+                }
+            }
+            pub fn load_deferred<'a>(s: &'a str) -> Option<Vec<$ty>> {
+                let mut p = saphyr_parser::Parser::new_from_str(s);
+                let mut l: saphyr::YamlLoader<$ty> = saphyr::YamlLoader::default();
+                l.early_parse(false);
+                p.load(&mut l, true).ok()?;
+                Some(l.into_documents())
+            }
+            /// A mapping with `n` keys `key_of(i) -> i`: every key and `absent` more probes of the same
+            /// family are looked up in the five ways; the reference is the construction itself.
+            pub fn check_big<'a>(m: &$ty, fam: usize, n: usize, absent: usize, nt: &str, acc: &mut Acc) {
+                let mut bad = 0u64;
+                let mut first: Option<String> = None;
+                for i in 0..n + absent {
+                    let p = big_key(fam, i);
+                    acc.count("lookups", 1);
+                    let refv: Option<Canon> = if i < n { Some(Canon::Int(i as i64)) } else { None };
+                    let g1 = m$($data)*.as_mapping_get(&p).map($canon);
+                    let g2 = m$($data)*.contains_mapping_key(&p);
+                    let g3 = if refv.is_some() || g2 { catch_unwind(AssertUnwindSafe(|| $canon(&m$($data)*[p.as_str()]))).ok() } else { None };
+                    let needle: $ty = $strnode(p.clone());
+                    let g5 = m$($data)*.as_mapping().and_then(|mm| mm.get(&needle)).map($canon);
+                    if g1 != refv || g2 != refv.is_some() || g3 != refv || g5 != refv {
+                        bad += 1;
+                        if first.is_none() {
+                            first = Some(format!("probe {p:?}: reference {refv:?} get={g1:?} contains={g2} index={g3:?} explicit={g5:?}"));
+                        }
+                    }
+                }
+                if bad > 0 {
+                    acc.violation(Violation { key: format!("big-mapping-lookup nt={nt} family={}", BIG_FAMILIES[fam]), expected: "every lookup agrees with the construction".into(), observed: format!("{bad} of {} probes disagree; first: {}", n + absent, first.unwrap_or_default()), case: json!({"kind": "big", "family": fam, "keys": n, "absent": absent}), size: n });
                 }
             }
             pub fn collect<'x, 'a>(n: &'x $ty, out: &mut Vec<&'x $ty>) {
@@ -250,6 +366,11 @@ fn constructed() -> Vec<Yaml<'static>> {
         Yaml::Value(Scalar::String("".into())),
         Yaml::Representation("a".into(), ScalarStyle::Plain, None),
         Yaml::Representation("a".into(), ScalarStyle::DoubleQuoted, None),
+        Yaml::Representation("a".into(), ScalarStyle::Plain, Some(saphyr_parser::Tag { handle: "tag:yaml.org,2002:".into(), suffix: "str".into() })),
+        Yaml::Representation("a".into(), ScalarStyle::Plain, Some(saphyr_parser::Tag { handle: "".into(), suffix: "tag:yaml.org,2002:str".into() })),
+        Yaml::Representation("a".into(), ScalarStyle::Plain, Some(saphyr_parser::Tag { handle: "tag:yaml.org,2002:s".into(), suffix: "tr".into() })),
+        Yaml::Representation("a".into(), ScalarStyle::Plain, Some(saphyr_parser::Tag { handle: "!".into(), suffix: "foo".into() })),
+        Yaml::Representation("a".into(), ScalarStyle::Plain, Some(saphyr_parser::Tag { handle: "".into(), suffix: "!foo".into() })),
         Yaml::BadValue,
         Yaml::Alias(1),
         Yaml::Sequence(vec![Yaml::Value(Scalar::String("a".into()))]),
@@ -313,7 +434,9 @@ fn eval_constructed(idx: usize, all: &[Yaml<'static>], acc: &mut Acc) {
 
 pub fn replay(case: &Value) -> Result<Acc, String> {
     let mut acc = Acc::default();
-    if case["kind"] == "constructed" {
+    if case["kind"] == "big" {
+        eval_big(case["family"].as_u64().unwrap_or(0) as usize, case["keys"].as_u64().unwrap_or(1) as usize, case["absent"].as_u64().unwrap_or(0) as usize, &mut acc);
+    } else if case["kind"] == "constructed" {
         let all = constructed();
         eval_constructed(case["index"].as_u64().unwrap_or(0) as usize, &all, &mut acc);
     } else {
@@ -330,7 +453,7 @@ pub fn replay(case: &Value) -> Result<Acc, String> {
 
 pub fn check(tier: Tier) -> i32 {
     let mut rep = Report::new("C20", tier, "model_checking");
-    rep.rule = "every mapping and sequence (at any depth) of the documents loaded from every string up to length N over the key alphabet {a 1 ~ : space , { } [ ] \" -} and 400 constructed mappings (Representation, BadValue, alias, float, NaN, collection and borrowed/owned string keys), for each of the 4 node types: for every probe string drawn from the keys, the text of non-string keys, type-like variants and absent strings, the five lookups (as_mapping_get, contains_mapping_key, [k] with the panic caught, as_mapping_get_mut, get with an explicitly built string node) are compared with a linear reference scan over the pairs; integer indexing likewise; a == b => hash(a) == hash(b) for all node pairs of an input (fixed-key hasher and the map's own hasher). Non-trivial: the input loads to a collection; distinct: digit-collapsed canonical documents.".into();
+    rep.rule = "every mapping and sequence (at any depth) of the documents loaded from every string up to length N over the key alphabet {a 1 ~ : space , { } [ ] \" -} and 400 constructed mappings (Representation, BadValue, alias, float, NaN, collection and borrowed/owned string keys), for each of the 4 node types: for every probe string drawn from the keys, the text of non-string keys, type-like variants and absent strings, the six lookups (as_mapping_get, contains_mapping_key, [k] and mutable [k] with the panic caught, as_mapping_get_mut, get with an explicitly built string node) are compared with a linear reference scan over the pairs; integer indexing likewise; a == b => hash(a) == hash(b) for all node pairs of an input (fixed-key hasher and the map's own hasher). Additionally mappings of 10^3 .. 10^5 similar keys in four key families (every key and 25% absent probes of the same family, against the construction), and ten documents loaded without early resolution whose keys spell one tag through different handle/suffix splits. Non-trivial: the input loads to a collection; distinct: digit-collapsed canonical documents.".into();
     rep.assumptions = vec!["'a resolved string equal to k' = a key node that is Value(String) with that content".into()];
     let budget = Budget::new(wall_cap(tier));
     let n = match tier {
@@ -354,6 +477,21 @@ pub fn check(tier: Tier) -> i32 {
     let c2 = acc.evals;
     rep.acc.merge(acc);
     rep.scope("constructed mappings", c2, done == all.len() as u64);
+    // large mappings of similar keys (hash-table collisions inside the string-keyed lookups)
+    let sizes: &[usize] = if tier == Tier::Quick { &[1000, 20_000] } else { &[1000, 20_000, 100_000] };
+    let jobs: Vec<(usize, usize)> = (0..BIG_FAMILIES.len()).flat_map(|f| sizes.iter().map(move |&n| (f, n))).collect();
+    let (acc, done) = par_blocks(jobs.len() as u64, &budget, |b, acc| {
+        let (f, n) = jobs[b as usize];
+        eval_big(f, n, n / 4, acc);
+    });
+    let c3 = acc.evals;
+    rep.acc.merge(acc);
+    rep.scope(&format!("large mappings: {} key families x sizes {sizes:?}, every key + 25% absent probes, 4 node types", BIG_FAMILIES.len()), c3, done == jobs.len() as u64);
+    // unresolved (deferred) documents with tagged keys
+    let (acc, done) = par_blocks(DEFERRED_DOCS.len() as u64, &budget, |b, acc| eval_deferred(b as usize, acc));
+    let c4 = acc.evals;
+    rep.acc.merge(acc);
+    rep.scope("deferred (unresolved) documents with tagged keys x 4 node types", c4, done == DEFERRED_DOCS.len() as u64);
     let lookups = rep.acc.counters.get("lookups").copied().unwrap_or(0);
     let maps = rep.acc.counters.get("mappings").copied().unwrap_or(0);
     rep.mc = Some((maps.max(1), lookups.max(1), lookups * 5));
